@@ -16,6 +16,8 @@ void EvLog::ev(const char *what, long a, long b) {
 // ---------------------------------------------------------------- registries
 static std::map<std::string, SessionFactory> &kinds() { static std::map<std::string, SessionFactory> m; return m; }
 static std::map<std::string, PlanGenerator> &gens() { static std::map<std::string, PlanGenerator> m; return m; }
+static std::vector<YieldInvariant> &yinv() { static std::vector<YieldInvariant> v; return v; }
+void registerYieldInvariant(YieldInvariant f) { yinv().push_back(f); }
 void registerSessionKind(const char *kind, SessionFactory f) { kinds()[kind] = f; }
 void registerGenerator(const char *prop, PlanGenerator g) { gens()[prop] = g; }
 Json genPlan(const std::string &prop, uint64_t seed, const std::string &tier) {
@@ -128,6 +130,7 @@ void World::yieldFrom(int me, const char *what, bool insideCallback) {
     if (inc >= 1000000) fault("clock_jump");
     log.ev(what, me, g_simclock_us / 1000);
     for (auto &f : yieldInvariants) f(*this, me);
+    for (auto f : yinv()) f(*this, me);
     int before = current;
     pickNext(lk, me);
     if (current != before && insideCallback) cbSwitches++;
